@@ -168,7 +168,8 @@ fn timeout_verify(genesis_qc: bool) {
     let mut hq = QC::genesis();
     if !genesis_qc {
         hq = QC { hash: any_digest(), round: vwit::any_u64(), votes: Vec::new() };
-        vwit::assume(hq != QC::genesis());
+        // (stated on the fields, not through the code's own `PartialEq for QC`, which is part of what is being checked)
+        vwit::assume(!(hq.hash == Digest::default() && hq.round == 0));
         let d = hq.digest();
         let mut i = 0;
         while i < 3 {
@@ -206,7 +207,8 @@ fn block_verify(genesis_qc: bool, with_tc: bool) {
     let mut qc = QC::genesis();
     if !genesis_qc {
         qc = QC { hash: any_digest(), round: vwit::any_u64(), votes: Vec::new() };
-        vwit::assume(qc != QC::genesis());
+        // (stated on the fields, not through the code's own `PartialEq for QC`, which is part of what is being checked)
+        vwit::assume(!(qc.hash == Digest::default() && qc.round == 0));
         let d = qc.digest();
         let mut i = 0;
         while i < 3 {
